@@ -332,6 +332,17 @@ def apply_op(ctx, w, oracle, op, extra=None):
     if not isinstance(s, str):
       ok, gs = guard(ctx, "%s|get_weight_scale" % w.specs[qi]["cls"],
                      qq.get_weight_scale, q)
+      if ok:
+        # the public reader must return the exposed scale (1.0 when the
+        # quantizer exposes none)
+        ctx.checked()
+        want = np.float32(1.0) if s is None else s
+        if not same(np.asarray(gs, np.float32), np.asarray(want, np.float32)):
+          ctx.violation("%s|get_weight_scale-differs-from-exposed-scale" %
+                        w.specs[qi]["cls"],
+                        "get_weight_scale returns %r, quantizer.scale is %r" % (
+                            np.asarray(gs).reshape(-1)[:4].tolist(),
+                            np.asarray(want).reshape(-1)[:4].tolist()))
     ctx.log("rs", s if s is not None else "none")
     oracle.on_read_scale(qi, s)
   elif k == "PHASE":
